@@ -26,6 +26,15 @@ theorem defaults_are_utf8 :
     Generated.Encoding.defaultStr = utf8Name ∧ Generated.Encoding.defaultBytes = utf8Name ∧
     Generated.Encoding.bomEncoding = utf8Name ∧ Generated.Encoding.bomCompare = utf8Name := by decide
 
+/-- the BOM branch compares the comment by codec (F-C18-1 repaired) -/
+theorem bom_compared_by_codec : Generated.Encoding.bomCompareByCodec = true := by decide
+
+/-- `ModuleInfo.source` drops the BOM before decoding (F-C18-3 repaired) -/
+theorem source_strips_bom : Generated.Encoding.sourceStripsBom = true := by decide
+
+/-- file name and uri are written with `%a` (F-C18-4 repaired) -/
+theorem names_written_ascii : Generated.Encoding.namesWrittenAscii = true := by decide
+
 /-! ### names -/
 
 theorem IsCodecName.no_nl {n : Name} (h : IsCodecName n) : '\n' ∉ n := fun hm => by
@@ -218,6 +227,51 @@ theorem pyRepr_chars (np : Char → Bool) (s : Text) : ∀ ch ∈ pyRepr np s, i
     · exact Or.inr ha
   · exact Or.inl hquote
 
+/-- `ascii()` produces ASCII only -/
+theorem reprChar_ascii (q c : Char) (hq : isAsciiChar q = true) :
+    ∀ ch ∈ reprChar (fun _ => true) q c, isAsciiChar ch = true := by
+  intro ch hm
+  rcases reprChar_chars _ q c ch hm with h | rfl
+  · exact h
+  · -- `ch` itself is emitted only when it is ASCII (or the quote / backslash)
+    unfold reprChar at hm
+    by_cases h1 : ch = q ∨ ch = '\\'
+    · rcases h1 with rfl | rfl
+      · exact hq
+      · decide
+    · by_cases h127 : ch.toNat < 127
+      · simp [isAsciiChar]; omega
+      · exfalso
+        simp only [h1, if_false] at hm
+        repeat' split at hm
+        all_goals first
+          | (rename_i hlt; omega)
+          | (rename_i hlt _; omega)
+          | skip
+        all_goals
+          have hx : ∀ w (pre : Char), ch ∈ '\\' :: pre :: hexN w ch.toNat → isAsciiChar ch = true := by
+            intro w pre h
+            simp only [List.mem_cons] at h
+            rcases h with rfl | rfl | h
+            · decide
+            · first | decide | (exfalso; revert h127; decide)
+            · exact hexN_ascii _ _ _ h
+          first
+            | (have := hx _ _ hm; simp [isAsciiChar] at this; omega)
+            | (simp at hm; rcases hm with rfl | rfl <;> revert h127 <;> decide)
+            | (simp at hm)
+
+theorem pyAscii_chars (s : Text) : ∀ ch ∈ pyAscii s, isAsciiChar ch = true := by
+  intro ch hm
+  unfold pyAscii pyRepr at hm
+  simp only [List.mem_cons, List.mem_append, List.mem_flatMap, List.not_mem_nil, or_false] at hm
+  have hquote : isAsciiChar (if s.contains '\'' ∧ ¬ s.contains '"' then '"' else '\'') = true := by
+    split <;> decide
+  rcases hm with (rfl | ⟨a, _, hch⟩) | rfl
+  · exact hquote
+  · exact reprChar_ascii _ a hquote ch hch
+  · exact hquote
+
 /-! ### the module text is encodable when its payload is -/
 
 theorem Piece.render_chars (np : Char → Bool) (p : Piece) (hw : p.wellFormed = true) :
@@ -230,6 +284,10 @@ theorem Piece.render_chars (np : Char → Bool) (p : Piece) (hw : p.wellFormed =
     exact hw ch hm
   | reprOf s => exact pyRepr_chars np s ch hm
   | code s => exact Or.inr hm
+  | nameOf s =>
+    left
+    simp only [Piece.render, names_written_ascii, if_true] at hm
+    exact pyAscii_chars s ch hm
 
 theorem moduleText_chars (np : Char → Bool) (n : Name) (hn : IsCodecName n) (body : List Piece)
     (hw : ∀ p ∈ body, p.wellFormed = true) :
